@@ -25,18 +25,34 @@ impl<T: Types> RaftLogStateMachine<T> {
         &&& oidx_ok::<T>(self.log_state.last)
         &&& oidx_ok::<T>(self.log_state.purged)
     }
-    /// I1-I3: index structure of the live entries (needs Raft-legal histories)
+    /// I1-I5: index structure of the live entries (holds on Raft-legal histories, see `legal`)
     pub open spec fn inv_idx(&self) -> bool {
         let last = self.log_state.last;
+        let purged = self.log_state.purged;
+        // I1: an entry sits under the index its log id carries
         &&& forall|i: u64| #[trigger] self.log@.contains_key(i) ==> idx::<T>(self.log@[i].log_id) == i
+        // I2: log ids increase with the index
         &&& forall|i: u64, j: u64| #[trigger] self.log@.contains_key(i) && #[trigger] self.log@.contains_key(j) && i < j ==> lt(self.log@[i].log_id, self.log@[j].log_id)
+        // I3: live entries are at or below `last`, by id and by index
         &&& forall|i: u64| #[trigger] self.log@.contains_key(i) ==> le_opt(self.log@[i].log_id, last) && i <= idx::<T>(last.unwrap())
+        // I4: live entries lie above the purged id, by id and by index
+        &&& forall|i: u64| #[trigger] self.log@.contains_key(i) ==> olt(purged, Some(self.log@[i].log_id)) && i >= onext::<T>(purged)
+        // I5: purged <= last, by id and by index
+        &&& ole(purged, last) && onext::<T>(purged) <= onext::<T>(last)
     }
-    /// history legality of a cut record: it cuts the live entries consistently by id and by index
+    /// history legality of a record (DESIGN 3.2): a cut record cuts the live entries consistently by id and by index and lies
+    /// consistently with `purged` / `last` in both orders.  RaftLog::truncate ESTABLISHES it for the record it builds (lemma_truncate_legal);
+    /// for purge(u) it is the caller's obligation ("Raft-legal": u is a live id, or lies beyond the last entry in both orders).
     pub open spec fn legal(&self, rec: WALRecord<T>) -> bool {
+        let last = self.log_state.last;
+        let purged = self.log_state.purged;
         match rec {
-            WALRecord::TruncateAfter(Some(p)) => forall|i: u64| #[trigger] self.log@.contains_key(i) ==> (i <= idx::<T>(p) <==> le(self.log@[i].log_id, p)),
-            WALRecord::PurgeUpto(u) => forall|i: u64| #[trigger] self.log@.contains_key(i) ==> (i <= idx::<T>(u) <==> le(self.log@[i].log_id, u)),
+            WALRecord::TruncateAfter(Some(p)) => (forall|i: u64| #[trigger] self.log@.contains_key(i) ==> (i <= idx::<T>(p) <==> le(self.log@[i].log_id, p)))
+                && ole(purged, Some(p)) && onext::<T>(purged) <= idx::<T>(p) + 1,
+            WALRecord::TruncateAfter(None) => purged is None,
+            WALRecord::PurgeUpto(u) => (forall|i: u64| #[trigger] self.log@.contains_key(i) ==> (i <= idx::<T>(u) <==> le(self.log@[i].log_id, u)))
+                && (last is Some ==> (le(u, last.unwrap()) <==> idx::<T>(u) <= idx::<T>(last.unwrap())))
+                && (purged is Some ==> (le(purged.unwrap(), u) <==> idx::<T>(purged.unwrap()) <= idx::<T>(u))),
             _ => true,
         }
     }
